@@ -411,9 +411,33 @@ def h_twin(ctx):
     ctx.prove("C13.twin.h_unchanged", EQ(grid.h, h))
 
 
+def replay_pstep_gaps(sc):
+    """real CTMCGridProbabilityStep on HEM: every gap between consecutive states, except the two outermost ones of each side (built by the
+    closing rule, not by the probability rule), carries the requested jump probability - on the negative half axis as on the positive one"""
+    import rpylib.model.levymodel.mixed.hem as HEM
+
+    model = HEM.HEMModel(HEM.HEMParameters(sigma=0.1, p=0.6, eta1=25.0, eta2=40.0, intensity=5.0))
+    step = 0.1
+    grid = GS.CTMCGridProbabilityStep(h=0.02, model=model, minimum_probability_step=step)
+    ax, piv = np.asarray(grid.axes[0], dtype=float), grid.origin_coordinate.value
+    lam = float(model.mass(-np.inf, -0.01) + model.mass(0.01, np.inf))
+    out = []
+    for side, idx in (("left", range(2, piv - 1)), ("right", range(piv + 1, len(ax) - 3))):
+        for j in idx:
+            pr = float(model.mass(ax[j], ax[j + 1])) / lam
+            if abs(pr - step) > 1e-6:
+                out.append(f"{side} gap [{ax[j]:.5f}, {ax[j + 1]:.5f}] carries probability {pr:.4f} (requested {step})")
+    return bool(out), f"HEM, h=0.02, minimum_probability_step={step}, {len(ax)} states: " + ("; ".join(out[:3]) if out else "interior gaps carry the requested probability")
+
+
+def concrete_validation():
+    ok, d = replay_pstep_gaps({})
+    return [("C13.concrete.pstep_interior_gaps_carry_the_probability_step", not ok, d)]
+
+
 def harnesses(tier):
     q = tier == "quick"
-    hs = []
+    hs = [Harness("concrete", concrete_validation, concrete=True)]
     for d in (1, 2):
         hs.append(Harness(f"uniform.{d}", h_uniform, {"d": d}, max_paths=4000, batch=20))
     for nb in ((2, 3, 5) if q else (2, 3, 4, 5, 8, 9)):
